@@ -253,7 +253,7 @@ func (s *gSched) release() {
 // ---------- cases ----------
 
 type c11ConcCase struct {
-	Conc      string     `json:"conc"` // "failover" | "swap"
+	Conc      string     `json:"conc"` // "failover" | "swap" | "swapw"
 	Members   []string   `json:"members"`
 	Shape     string     `json:"shape"`          // failover: F0[...]; swap: the first generation
 	Gens      []string   `json:"gens,omitempty"` // swap: shapes installed by the successive Swap calls
@@ -289,6 +289,8 @@ func c11RunConc(c *c11ConcCase) (fails []c11PolicyFail, reqs []*c11Req, err erro
 	w.onCall = func(m *c11Member, op byte, id int) {
 		if op != 'x' {
 			sched.park("member")
+		} else if c.Conc == "swapw" {
+			sched.park("close") // inside Swap, which holds the write lock while it closes the old store
 		}
 		gid := c12GoroutineID()
 		mu.Lock()
@@ -324,6 +326,11 @@ func c11RunConc(c *c11ConcCase) (fails []c11PolicyFail, reqs []*c11Req, err erro
 		swap = desync.NewSwapStore(inner)
 		top = swap
 	}
+	if c.Conc == "swapw" {
+		ws := desync.NewSwapWriteStore(inner)
+		swap = &ws.SwapStore
+		top = ws
+	}
 	nextGen := 0
 	var genMu sync.Mutex
 	for ti, ops := range c.Threads {
@@ -355,14 +362,18 @@ func c11RunConc(c *c11ConcCase) (fails []c11PolicyFail, reqs []*c11Req, err erro
 				cur[gid] = r
 				reqs = append(reqs, r)
 				mu.Unlock()
-				i, _ := strconv.Atoi(op[1:])
+				i, _ := strconv.Atoi(strings.SplitN(op[1:], ":", 2)[0])
 				func() {
 					defer func() {
 						if p := recover(); p != nil {
 							r.Result = fmt.Sprintf("PANIC(%v)", p)
 						}
 					}()
-					if op[0] == 'g' {
+					if op[0] == 's' { // s<id>:<tag>
+						tag, _ := strconv.Atoi(op[strings.Index(op, ":")+1:])
+						e := top.(desync.WriteStore).StoreChunk(c11Chunk(i, tag))
+						r.Result = "S:" + c11Class(e)
+					} else if op[0] == 'g' {
 						ch, e := top.GetChunk(c11ID(i))
 						t := "_"
 						if ch != nil {
@@ -470,7 +481,7 @@ func c11ConcPredicate(c *c11ConcCase, w []*c11Member, reqs []*c11Req, shape *c11
 				}
 			}
 		}
-	case "swap":
+	case "swap", "swapw":
 		// generation of every member
 		gen := map[int]int{}
 		shapes := append([]string{c.Shape}, c.Gens...)
@@ -500,13 +511,30 @@ func c11ConcPredicate(c *c11ConcCase, w []*c11Member, reqs []*c11Req, shape *c11
 			if cls != "n" && cls != "m" {
 				bad("swap/request-fails", "request %s of goroutine %d failed under Swap: %s", r.Op, r.Thread, r.Result)
 			}
-			if r.Op[0] == 'g' && cls == "n" && len(r.Calls) > 0 {
+			if r.Op[0] == 'g' && cls == "n" && len(r.Calls) > 0 && !strings.HasPrefix(r.Result, "G5") {
+				// (copies 5xxx are the ones written by the case's own StoreChunk callers)
 				// the data must come from the generation that was called: members of generation g hold tags g*100+id
 				tag, _ := strconv.Atoi(r.Result[1:strings.Index(r.Result, ":")])
 				if tag/100 != gen[r.Calls[0]] {
 					bad("swap/wrong-generation-data", "request %s of goroutine %d returned copy %d but called generation %d", r.Op, r.Thread, tag, gen[r.Calls[0]])
 				}
 			}
+		}
+		// an acknowledged write is in the store that was current when it returned: the same goroutine reads it back at
+		// once; if no swap came in between (same generation called) the chunk just stored must be there
+		last := map[int]*c11Req{}
+		for _, r := range reqs {
+			if p := last[r.Thread]; p != nil && p.Op[0] == 's' && p.Result == "S:n" && r.Op[0] == 'g' &&
+				len(p.Calls) == 1 && len(r.Calls) == 1 && gen[p.Calls[0]] == gen[r.Calls[0]] && !p.Closed[0] && !r.Closed[0] {
+				tag := p.Op[strings.Index(p.Op, ":")+1:]
+				if r.Op[1:] == strings.SplitN(p.Op[1:], ":", 2)[0] && r.Result != "G"+tag+":n" {
+					bad("swap/acknowledged-write-lost", "goroutine %d: %s returned nil on generation %d, the read-back %s on the same generation returned %s", r.Thread, p.Op, gen[p.Calls[0]], r.Op, r.Result)
+				}
+			}
+			if r.Op[0] == 's' && r.Result == "S:n" && len(r.Calls) != 1 {
+				bad("swap/acknowledged-write-lost", "goroutine %d: %s returned nil but reached %d member stores", r.Thread, r.Op, len(r.Calls))
+			}
+			last[r.Thread] = r
 		}
 	}
 	return fails
@@ -621,6 +649,52 @@ func c11GenSwapCase(rng *vh.Rand) *c11ConcCase {
 	return c
 }
 
+// c11GenSwapWCase: a SwapWriteStore over single writable member stores; writers (StoreChunk + read-back), readers
+// and Swap calls; the scheduler also parks Swap inside the old store's Close, i.e. while it holds the write lock.
+func c11GenSwapWCase(rng *vh.Rand) *c11ConcCase {
+	c := &c11ConcCase{Conc: "swapw", SchedSeed: rng.U64()}
+	ngen := rng.Range(2, 4)
+	for g := 0; g < ngen; g++ {
+		var content []string
+		for i := 0; i < 3; i++ {
+			content = append(content, fmt.Sprintf("%d:%d:1", i, g*100+i))
+		}
+		c.Members = append(c.Members, joinOr(content, ",")+"/_/n")
+		if g == 0 {
+			c.Shape = "L0"
+		} else {
+			c.Gens = append(c.Gens, fmt.Sprintf("L%d", g))
+		}
+	}
+	for t := 0; t < rng.Range(1, 3); t++ { // writers, each on its own chunk id 3, 4, 5
+		var ops []string
+		for k := rng.Range(1, 3); k > 0; k-- {
+			ops = append(ops, fmt.Sprintf("s%d:%d", 3+t, 5000+t*10+k), fmt.Sprintf("g%d", 3+t))
+		}
+		c.Threads = append(c.Threads, ops)
+	}
+	for t := rng.Range(0, 2); t > 0; t-- {
+		var ops []string
+		for k := rng.Range(1, 3); k > 0; k-- {
+			ops = append(ops, fmt.Sprintf("%c%d", "ggh"[rng.Intn(3)], rng.Intn(3)))
+		}
+		c.Threads = append(c.Threads, ops)
+	}
+	for swaps := ngen - 1; swaps > 0; {
+		k := 1
+		if swaps > 1 && rng.Chance(1, 2) {
+			k = 2
+		}
+		ops := make([]string, k)
+		for j := range ops {
+			ops[j] = "w"
+		}
+		c.Threads = append(c.Threads, ops)
+		swaps -= k
+	}
+	return c
+}
+
 func c11Concurrent(a vh.Args, o *vh.Oracle, r *vh.Result, rng *vh.Rand) error {
 	n := 400
 	if a.Tier == "thorough" {
@@ -628,10 +702,13 @@ func c11Concurrent(a vh.Args, o *vh.Oracle, r *vh.Result, rng *vh.Rand) error {
 	}
 	for k := 0; k < n; k++ {
 		var c *c11ConcCase
-		if k%2 == 0 {
+		switch k % 3 {
+		case 0:
 			c = c11GenFailoverCase(rng)
-		} else {
+		case 1:
 			c = c11GenSwapCase(rng)
+		default:
+			c = c11GenSwapWCase(rng)
 		}
 		// several schedules per configuration
 		for s := 0; s < 3; s++ {
